@@ -32,13 +32,14 @@ DRAIN_ENTRIES = lambda s: s == "CircularBuffer::drain" or s.startswith("<Drain<"
 def run(ctx, progs):
     ctx.explanation = EXPLANATION
     for r, t in (("DRN1", "drain typestate"), ("DROPPER1", "guards before drops"), ("DRAINIT1", "index iterator protocol"),
-                 ("BACKFILL1", "back-fill on every path to the restore"), ("MOD1", "capacity zero"), ("RANGE1", "bound translation")):
+                 ("BACKFILL1", "back-fill on every path to the restore"), ("DRNVIEW1", "un-yielded views bounded by iter, never by range"), ("MOD1", "capacity zero"), ("RANGE1", "bound translation")):
         ctx.rule(r, t)
     for cfg, prog in progs.items():
         drainrules.drn1_abcf(ctx, prog, cfg)
         c05.drn1_de(ctx, prog, cfg)
         c05.dropper1(ctx, prog, cfg)
         drainrules.drainit1(ctx, prog, cfg)
+        drainrules.drnview1(ctx, prog, cfg)
         backfill1(ctx, prog, cfg)
         eng = shared.run_mod1(prog)
         n = shared.report_requires(ctx, eng, "MOD1", cfg, entry_filter=DRAIN_ENTRIES)
